@@ -267,6 +267,9 @@ func (s *memSocket) Dial(address string) (socket.Conn, error) {
 		plan(cl)
 	}
 	if !l.deliver(sv) {
+		// refused: neither end exists for the accounting
+		cl.Close()
+		sv.Close()
 		return nil, ErrRefused
 	}
 	return cl, nil
@@ -278,23 +281,25 @@ type MemListener struct {
 	addr   string
 	mu     sync.Mutex
 	ch     chan *MemConn
+	done   chan struct{} // closed by Close; ch itself is never closed (a Dial may be delivering)
 	closed bool
 	conns  []*MemConn
 }
 
 func (l *MemListener) deliver(c *MemConn) bool {
 	l.mu.Lock()
+	defer l.mu.Unlock()
 	if l.closed {
-		l.mu.Unlock()
 		return false
 	}
-	l.conns = append(l.conns, c)
-	l.mu.Unlock()
+	// the send happens under the lock that Close takes: no connection can slip into the backlog
+	// after Close has emptied it
 	select {
 	case l.ch <- c:
+		l.conns = append(l.conns, c)
 		return true
-	case <-time.After(5 * time.Second):
-		return false
+	default:
+		return false // backlog full
 	}
 }
 
@@ -305,18 +310,24 @@ func (s *memSocket) Listen(address string) (socket.Listener, error) {
 	if _, ok := n.listeners[address]; ok {
 		return nil, fmt.Errorf("mem: address %s already in use", address)
 	}
-	l := &MemListener{n: n, addr: address, ch: make(chan *MemConn, 64)}
+	l := &MemListener{n: n, addr: address, ch: make(chan *MemConn, 64), done: make(chan struct{})}
 	n.listeners[address] = l
 	return l, nil
 }
 
 // Accept implements socket.Listener.
 func (l *MemListener) Accept() (socket.Conn, error) {
-	c, ok := <-l.ch
-	if !ok {
+	select {
+	case c := <-l.ch:
+		return c, nil
+	default:
+	}
+	select {
+	case c := <-l.ch:
+		return c, nil
+	case <-l.done:
 		return nil, errors.New("mem: listener closed")
 	}
-	return c, nil
 }
 
 // Close implements socket.Listener.
@@ -327,7 +338,17 @@ func (l *MemListener) Close() error {
 		return nil
 	}
 	l.closed = true
-	close(l.ch)
+	close(l.done)
+	// connections still in the backlog are reset, as a kernel does when the listening socket goes
+	for {
+		select {
+		case c := <-l.ch:
+			c.Close()
+			continue
+		default:
+		}
+		break
+	}
 	l.mu.Unlock()
 	l.n.mu.Lock()
 	if l.n.listeners[l.addr] == l {
